@@ -215,12 +215,34 @@ func octInterleaved(toks []string) string {
 		hexOrDash(unread), werr, refs)
 }
 
+// c11R = the c11 case on a stream that is reused after Reset() (see the c11 handler)
+var c11Reused bool
+
+func init() {
+	register("c11R", func(toks []string) string {
+		c11Reused = true
+		defer func() { c11Reused = false }()
+		return handlers["c11"](append([]string{"c11"}, toks[1:]...))
+	})
+}
+
 func init() {
 	register("c11i", octKeptWrap(octInterleaved))
 
 	// c11 <api><type>:<value> ... : write all values, then read them back with the matching calls
 	register("c11", octKeptWrap(func(toks []string) string {
 		var stream = &iox.OctetsStream{}
+		if c11Reused {
+			// the stream has a life before this case: it once carried a big message (> 64 KB), part of it was
+			// read, then it was Reset() for reuse -- after which it must behave as a new stream
+			big := make([]byte, 70000)
+			for i := range big {
+				big[i] = byte(i*7 + 3)
+			}
+			_ = stream.Write(big)
+			_, _ = stream.Read(make([]byte, 4097))
+			stream.Reset()
+		}
 		var writer = iox.NewOctetsWriter(stream)
 		var reader = iox.NewOctetsReader(stream)
 		var ks []octTok
